@@ -7,7 +7,7 @@ import XdocModel.Dynamic
 
 Trees travel as a `;`-joined list of tokens (each token a codec string) in prefix order:
 `tree := stmt* "E"`, `stmt := "F" async name decos doc tree | "C" name decos doc tree |
-"I" isCompare op0Eq optstr optstr optstr optstr runsThen runsElse tree tree | "B" runs tree | "M" name | "O"`,
+"I" isCompare op0Eq optstr optstr optstr optstr runsThen runsElse tree tree | "B" runs tree | "M" name | "L" target src | "O"`,
 `decos := n (kind value)^n` (`kind`: N name, A attribute, E name or call of a name bound by an import, X other), `doc := "0" | "1" text endline startline`,
 `optstr := "0" | "1" text`. -/
 namespace Xdoc.Driver
@@ -96,6 +96,12 @@ partial def parseTree : Toks → Option (Tree × Toks)
       | name :: r1 => do
         let (next, r2) ← parseTree r1
         pure (.imp name next, r2)
+      | _ => none
+    else if tokIs t "L" then
+      match r with
+      | target :: src :: r1 => do
+        let (next, r2) ← parseTree r1
+        pure (.alias target src next, r2)
       | _ => none
     else if tokIs t "O" then do
       let (next, r1) ← parseTree r
